@@ -96,6 +96,9 @@ var selSwap = map[string]map[string]selShim{
 	"net/http": {
 		"Get": {shVenv, "HTTPGet"}, "Serve": {shVenv, "HTTPServe"}, "ListenAndServe": {shVenv, "HTTPListenAndServe"},
 	},
+	"net/http/httputil": {
+		"NewSingleHostReverseProxy": {shVenv, ""},
+	},
 	"net": {
 		"Listen": {shVnet, ""}, "Dial": {shVnet, ""}, "DialTimeout": {shVnet, ""},
 	},
@@ -606,6 +609,37 @@ func main() {
 				allErrs = append(allErrs, rw.errs...)
 				dst := filepath.Join(*out, "rw", rel, filepath.Base(fn))
 				target := fn
+				if isMain && i == 0 {
+					// one extra file per program: resets package-level variables that have no
+					// initialiser (state that main() sets up) so that main can be run afresh
+					var sb strings.Builder
+					vname := "v" + strings.ReplaceAll(filepath.Base(rel), "-", "")
+					sb.WriteString("package " + vname + "\n\nimport vs \"" + zz + "vs\"\n\nvar _ = vs.Active\n\nfunc ResetForTest() {\n")
+					for _, f2 := range p.Syntax {
+						for _, d := range f2.Decls {
+							gd, ok := d.(*ast.GenDecl)
+							if !ok || gd.Tok != token.VAR {
+								continue
+							}
+							for _, sp := range gd.Specs {
+								vsp := sp.(*ast.ValueSpec)
+								if vsp.Type == nil || len(vsp.Values) != 0 {
+									continue
+								}
+								for _, n := range vsp.Names {
+									if n.Name != "_" {
+										sb.WriteString("\tvs.Zero(&" + n.Name + ")\n")
+									}
+								}
+							}
+						}
+					}
+					sb.WriteString("}\n")
+					rdst := filepath.Join(*out, "rw", rel, "zz_reset.go")
+					os.MkdirAll(filepath.Dir(rdst), 0755)
+					os.WriteFile(rdst, []byte(sb.String()), 0644)
+					ov.Replace[filepath.Join(*repo, "zz_verif", "p", vname, "zz_reset.go")] = rdst
+				}
 				if isMain {
 					// package main programs become importable virtual packages
 					vname := "v" + strings.ReplaceAll(filepath.Base(rel), "-", "")
@@ -654,6 +688,12 @@ func main() {
 		}
 		os.Exit(1)
 	}
+}
+
+func exprString(fset *token.FileSet, e ast.Expr) string {
+	var b bytes.Buffer
+	format.Node(&b, fset, e)
+	return b.String()
 }
 
 func stripDocs(f *ast.File) {
